@@ -28,6 +28,8 @@ class Mesh:
         # List of all added operations/shapes
         self.depot: List[AdditiveType] = []
         self.deleted: Set[Operation] = set()
+        # operations the current blocks were created from, in block order
+        self.assembled: List[Operation] = []
 
         self.vertex_list = VertexList()
         self.edge_list = EdgeList()
@@ -126,6 +128,7 @@ class Mesh:
                 block.cell_zone = operation.cell_zone
 
                 self.block_list.add(block)
+                self.assembled.append(operation)
                 self.patch_list.add(vertices, operation)
                 self.face_list.add(vertices, operation)
 
@@ -148,6 +151,7 @@ class Mesh:
         self.block_list.clear()
         self.patch_list.clear()
         self.face_list.clear()
+        self.assembled.clear()
 
     def backport(self) -> None:
         """When mesh is assembled, points from depot are converted to vertices and
@@ -160,8 +164,9 @@ class Mesh:
         if not self.is_assembled:
             raise RuntimeError("Cannot backport non-assembled mesh")
 
-        # blocks are only created for operations that were not deleted
-        operations = [operation for operation in self.operations if operation not in self.deleted]
+        # blocks were created for the operations that were not deleted at that time;
+        # an operation deleted since then still has its block
+        operations = list(self.assembled)
         blocks = self.blocks
 
         for i, block in enumerate(blocks):
